@@ -74,11 +74,11 @@ def run(ctx):
                                       '--seed', ctx.seed * 100 + n, '--yield', y[0], '--yield-us', y[1]]))
         # episodes on a lock whose reader counters are a handful of acquisitions away from the sign change (2^23) or the wrap
         # (2^24): the first episodes straddle the boundary with readers inside while a writer arrives
-        for k in range(12 if thorough else 4):
-            for boundary in (8388608, 16777216):
+        for k in range(40 if thorough else 12):
+            for boundary in ((8388608, 16777216) if k % 4 == 0 else (8388608,)):
                 n += 1
                 jobs.append(dict(kind='ep', flavour=flavour, threads=3 + k % 2, cs=100, y=(300, 0), prewarm=boundary, tag='b%d' % n,
-                                 cmd=[e, '--mode', 'episodes', '--threads', 3 + k % 2, '--cycles', 3, '--episodes', 8, '--ep-keep', 1, '--prewarm', boundary - 1 - (k * 3) % 7,
+                                 cmd=[e, '--mode', 'episodes', '--threads', 3 + k % 2, '--cycles', 3, '--episodes', 8, '--ep-keep', 1, '--prewarm', boundary - 1 - (k * 3) % 7, '--cs', 4000,
                                       '--seed', ctx.seed * 100 + n, '--yield', 300, '--yield-us', 0]))
         for victim, nv, na, y in (('writer', 1, 6, 0), ('writer', 2, 10, 150), ('reader', 2, 6, 0), ('reader', 4, 8, 150), ('writer', 1, 15, 0)):
             n += 1
